@@ -357,6 +357,8 @@ def _auto(sc, res, clock, log):
                     res.probe("exit_while_spinner_sleeps")
         except (_BodyError, KeyboardInterrupt) as e:
             raised = e
+        except Exception as e:  # the component's own failure: judged below (spurious / replaced)
+            raised = e
         marks[tag + "_exit_done"] = sched.steps
         log.add("with_left", tag)
         return raised
@@ -381,7 +383,8 @@ def _auto(sc, res, clock, log):
                 res.violate("spinner_joined", "alive_after_exit", "threads %r still alive after the with-block (%s exit)" % (alive, "exception" if want_raise else "normal"))
             if want_raise and raised is None:
                 res.violate("exception_propagates", "swallowed", "the body raised %s but the with-statement ended normally" % want_raise)
-            elif want_raise and ((want_raise == "KeyboardInterrupt") != isinstance(raised, KeyboardInterrupt)):
+            elif want_raise and (((want_raise == "KeyboardInterrupt") != isinstance(raised, KeyboardInterrupt))
+                                 or not isinstance(raised, (_BodyError, KeyboardInterrupt))):
                 res.violate("exception_propagates", "replaced", "the body raised %s, the block raised %r" % (want_raise, raised))
             elif not want_raise and raised is not None:
                 res.violate("exception_propagates", "spurious", "the block raised %r" % (raised,))
